@@ -2,6 +2,7 @@ import Driver.Util
 import DiskfsModel.Core.Crc
 import DiskfsModel.Model.Gpt
 import DiskfsModel.Model.Mbr
+import DiskfsModel.Model.MbrTable
 import DiskfsModel.Spec.GptValid
 import DiskfsModel.Proofs.GptCrashFlat
 /-!
@@ -160,6 +161,39 @@ def opMbrRead (args : List String) : String :=
     s!"res=ok\tsig={Mbr.diskSig d}\tparts={mbrPartsStr ps}\tranges={rs}"
   | (none, _) => "res=err"
 
+/-! ### mbr.readt / mbr.writet: the Table level (Model/MbrTable.lean): Read with the caller's sector sizes
+    stamped (any Int: 0 and negative fall back to 512), every slice through the Go-panic model; Write with
+    its refusal of more than four partitions -/
+
+def opMbrReadT (args : List String) : String :=
+  let d := extsDev (parseExts ((arg args "dev").getD "-"))
+  match (Mbr.readT d (argNatD args "size") ((argInt args "lbs").getD 0) ((argInt args "pbs").getD 0)).1 with
+  | .ok t =>
+    let rs := ";".intercalate (t.diskParts.map fun p => s!"{p.index}:{p.byteStart}:{p.byteSize}:{p.lssOf}:{p.pssOf}")
+    s!"res=ok\tlss={t.lss}\tpss={t.pss}\tparts={mbrPartsStr t.parts}\tranges={rs}"
+  | .err _ => "res=err"
+  | .panic _ => "res=panic"
+
+def opMbrWriteT (args : List String) : String :=
+  match Mbr.writeT ⟨parseMbrParts ((arg args "parts").getD "-"), argNatD args "lss" 512, argNatD args "pss" 512⟩ with
+  | some ws => s!"res=ok\tws={wrsStr ws}"
+  | none => "res=refused"
+
+def mbrTableStr (t : Mbr.Table) : String :=
+  let rs := ";".intercalate (t.diskParts.map fun p => s!"{p.index}:{p.byteStart}:{p.byteSize}:{p.lssOf}:{p.pssOf}")
+  s!"lss={t.lss}\tpss={t.pss}\tparts={mbrPartsStr t.parts}\tranges={rs}"
+
+/-- part.readt: partition.Read with (lss, pbs) handed on to both readers (Model/MbrTable.lean PartTable.readT) -/
+def opPartReadT (args : List String) : String :=
+  let c := parseCfg args
+  let d := extsDev (parseExts ((arg args "dev").getD "-"))
+  let lss := argNatD args "lss" 512
+  match (PartTable.readT c crc32 d (argNatD args "size") lss ((argInt args "pbs").getD 0)).1 with
+  | .ok (.gpt t) => s!"res=ok\tkind=gpt\t{tableStr t}"
+  | .ok (.mbr t) => s!"res=ok\tkind=mbr\t{mbrTableStr t}"
+  | .err _ => "res=err"
+  | .panic _ => "res=panic"
+
 /-! ### codec unit ops: crc, guid swap, utf16, entry -/
 
 def opCrc (args : List String) : String :=
@@ -259,55 +293,131 @@ def classifyPT (oldParts newParts : Option (List Part)) (oldMbr : Option (List M
   | .err _ => 'E'
   | .panic _ => 'P'
 
-/-- old = gpt|none|mbr, then for every prefix k and every subset of the family of the in-flight
-    write the class of gpt.Read and of partition.Read:  g0=…,g1=… p0=… -/
+/-! Windowed images (C09, big disks): the first `head.size` bytes and the `tail.size` bytes from `tailOff`
+    are kept flat, every other byte of the device reads as zero and a write (part) outside the windows is
+    dropped.  With the default window (head = whole device) this is the flat image of before. -/
+
+structure Img where
+  head : ByteArray
+  tailOff : Nat
+  tail : ByteArray
+
+def Img.dev (m : Img) : Dev := fun i =>
+  if i < m.head.size then m.head.get! i
+  else if m.tailOff ≤ i ∧ i < m.tailOff + m.tail.size then m.tail.get! (i - m.tailOff) else 0
+
+/-- `w` applied to the window `[base, base + img.size)` -/
+def winApply (img : ByteArray) (base : Nat) (w : Wr) : ByteArray :=
+  let lo := max w.off base
+  let hi := min (w.off + w.data.length) (base + img.size)
+  if lo < hi then (ByteArray.mk w.data.toArray).copySlice (lo - w.off) img (lo - base) (hi - lo) else img
+
+def Img.apply (m : Img) (w : Wr) : Img :=
+  { m with head := winApply m.head 0 w, tail := winApply m.tail m.tailOff w }
+
+def Img.zero (size h t : Nat) : Img :=
+  let h := min h size
+  let t := min t (size - h)
+  ⟨ByteArray.mk (Array.replicate h 0), size - t, ByteArray.mk (Array.replicate t 0)⟩
+
+/-- `H,T` -/
+def parseWin (s : String) (size : Nat) : Nat × Nat :=
+  match s.splitOn "," with
+  | [h, t] => (h.toNat!, t.toNat!)
+  | _ => (size, 0)
+
+/-- gpt.Table.Repair(diskSize) -/
+def repairTable (t : Table) (size : Nat) : Table :=
+  let sh := u64sub (u64 size / t.lss) 1
+  { t with secondaryHeader := sh, lastData := u64sub (u64sub sh (partSectors t)) 1 }
+
+/-- old = gpt|none|mbr|raw, then for every prefix k and every subset of the family of the in-flight
+    write the class of gpt.Read and of partition.Read:  g0=…,g1=… p0=…
+    Optional: `win=H,T` windowed image (big disks); `old=raw` the device as given is the old state and what
+    gpt.Read returns on it the old list; `pre=k:f` + table `p…`: the old state is crash state (k, subset f)
+    of writing table p over the state built so far (a disk left behind by an interrupted write);
+    `rmw=1` the new table is the one gpt.Read returns on the old state with its partitions replaced by
+    `nparts` (and its disk GUID by `nguid` when given; `repair=1`: after Table.Repair(size));
+    `rec=0` leaves out the record-level classifications (old tables of foreign geometry). -/
 def opCrash (args : List String) : String :=
   let c := parseCfg args
   let size := argNatD args "size"
   let lss := argNatD args "lss" 512
   let base := parseExts ((arg args "dev").getD "-")
-  let img0 := base.foldl (fun (img : ByteArray) (e : Nat × ByteArray) => imgApply img ⟨e.1, e.2.toList⟩)
-                (ByteArray.mk (Array.replicate size 0))
+  let (wh, wt) := parseWin ((arg args "win").getD "") size
+  let img0 := base.foldl (fun (img : Img) (e : Nat × ByteArray) => img.apply ⟨e.1, e.2.toList⟩) (Img.zero size wh wt)
   let oldKind := (arg args "old").getD "none"
   let oldMbrPs := parseMbrParts ((arg args "ombr").getD "-")
+  let recLevel := (arg args "rec").getD "1" == "1"
   -- the old state
-  let (img1, oldMbr) : ByteArray × Option (List Mbr.Part) :=
+  let (imgA, oldMbr) : Img × Option (List Mbr.Part) :=
     if oldKind == "gpt" then
       match Gpt.write c crc32 (tableOfArgs args "o") size with
-      | .ok (ws, _) => (ws.foldl imgApply img0, none)
+      | .ok (ws, _) => (ws.foldl Img.apply img0, none)
       | _ => (img0, none)
     else if oldKind == "mbr" then
-      let img := (Mbr.write oldMbrPs).foldl imgApply img0
-      (img, (Mbr.read (imgDev img) size).1)
+      let img := (Mbr.write oldMbrPs).foldl Img.apply img0
+      (img, (Mbr.read img.dev size).1)
     else (img0, none)
-  let partsOf (img : ByteArray) : Option (List Part) :=
-    match (Gpt.read c crc32 (imgDev img) size lss).1 with
-    | .ok t => some t.parts
+  -- an interrupted earlier write of table p on top of it
+  let img1 : Img :=
+    match (arg args "pre").map (·.splitOn ":") with
+    | some [k, f] =>
+      match Gpt.write c crc32 (tableOfArgs args "p") size with
+      | .ok (ws, _) =>
+        let imgk := (ws.take k.toNat!).foldl Img.apply imgA
+        match ws[k.toNat!]? with
+        | none => imgk
+        | some w =>
+          let n := (w.data.length + lss - 1) / lss
+          match (family n)[f.toNat!]? with
+          | some keep => (tornPieces lss w keep).foldl Img.apply imgk
+          | none => imgk
+      | _ => imgA
+    | _ => imgA
+  let tableOn (img : Img) : Option Table :=
+    match (Gpt.read c crc32 img.dev size lss).1 with
+    | .ok t => some t
     | _ => none
-  let oldParts := if oldKind == "gpt" then partsOf img1 else none
-  match Gpt.write c crc32 (tableOfArgs args "n") size with
+  let partsOf (img : Img) : Option (List Part) := (tableOn img).map (·.parts)
+  let oldParts := if oldKind == "gpt" || oldKind == "raw" then partsOf img1 else none
+  let fresh := tableOfArgs args "n"
+  let newTable : Option Table :=
+    if (arg args "rmw").getD "0" == "1" then
+      (tableOn img1).map fun t1 =>
+        let t2 := { t1 with parts := fresh.parts }
+        let t3 := match arg args "nguid" with
+          | some g => { t2 with guid := hexB g }
+          | none => t2
+        if (arg args "repair").getD "0" == "1" then repairTable t3 size else t3
+    else some fresh
+  match newTable with
+  | none => "res=noread"
+  | some nt =>
+  match Gpt.write c crc32 nt size with
   | .ok (ws, _) =>
-    let newParts := partsOf (ws.foldl imgApply img1)
+    let newParts := partsOf (ws.foldl Img.apply img1)
     let both (d : Dev) : Char × Char × Char × Char :=
       let g := Gpt.read c crc32 d size lss
       (classify oldParts newParts g.1, classifyPT oldParts newParts oldMbr (PartTable.readWith g d size).1,
-       classifyRec oldParts newParts d size lss, classifyRecPT oldParts newParts oldMbr d size lss)
+       if recLevel then classifyRec oldParts newParts d size lss else '-',
+       if recLevel then classifyRecPT oldParts newParts oldMbr d size lss else '-')
     let stage (k : Nat) : String × String × String × String :=
-      let imgk := (ws.take k).foldl imgApply img1
+      let imgk := (ws.take k).foldl Img.apply img1
       match ws[k]? with
       | none =>
-        let r := both (imgDev imgk)
+        let r := both imgk.dev
         (String.singleton r.1, String.singleton r.2.1, String.singleton r.2.2.1, String.singleton r.2.2.2)
       | some w =>
         let n := (w.data.length + lss - 1) / lss
-        let rs := (family n).map fun keep => both (imgDev ((tornPieces lss w keep).foldl imgApply imgk))
+        let rs := (family n).map fun keep => both ((tornPieces lss w keep).foldl Img.apply imgk).dev
         (String.ofList (rs.map (·.1)), String.ofList (rs.map (·.2.1)), String.ofList (rs.map (·.2.2.1)),
          String.ofList (rs.map (·.2.2.2)))
     let all := (List.range (ws.length + 1)).map stage
     let g := ",".intercalate (all.map (·.1))
     let p := ",".intercalate (all.map (·.2.1))
-    let r := ",".intercalate (all.map (·.2.2.1))
-    let q := ",".intercalate (all.map (·.2.2.2))
+    let r := if recLevel then ",".intercalate (all.map (·.2.2.1)) else "-"
+    let q := if recLevel then ",".intercalate (all.map (·.2.2.2)) else "-"
     s!"res=ok\tn={ws.length}\tg={g}\tp={p}\tr={r}\tq={q}"
   | _ => "res=err"
 
@@ -325,5 +435,8 @@ def main : IO Unit := Driver.runLoop fun op args =>
   | "gpt.valid" => Driver.Gpt.opValid args
   | "gpt.rewrite" => Driver.Gpt.opRewrite args
   | "mbr.rewrite" => Driver.Gpt.opMbrRewrite args
+  | "mbr.readt" => Driver.Gpt.opMbrReadT args
+  | "mbr.writet" => Driver.Gpt.opMbrWriteT args
+  | "part.readt" => Driver.Gpt.opPartReadT args
   | "gptcrash.pair" => Driver.Gpt.opCrash args
   | _ => "unknown-op"
